@@ -247,13 +247,22 @@ func c19Case(c *Ctx, idx int) error {
 		cfg = append(cfg[:3], cfg[4:]...)
 	}
 	rng.Shuffle(len(cfg), func(a, b int) { cfg[a], cfg[b] = cfg[b], cfg[a] })
+	limits := map[string][2]int64{} // the limits last requested per deal type and currency (to aim deals at their bounds)
+	atBounds := func(deal, cur string, a *big.Int) *big.Int {
+		if l, ok := limits[deal+"/"+cur]; ok && rng.Intn(2) == 0 {
+			return z([]int64{l[0] - 1, l[0], l[0] + 1, l[1] - 1, l[1], l[1], l[1] + 1}[rng.Intn(7)])
+		}
+		return a
+	}
 	for k := rng.Intn(4); k > 0; k-- {
 		mn := int64(rng.Intn(50))
 		mx := []int64{0, mn, mn + 100, mn - 1}[rng.Intn(4)]
 		if mx < 0 {
 			mx = 0
 		}
-		cfg = append(cfg, c19Op{Kind: "setLimits", Sender: iss.N(), Deal: []string{"buyToken", "buyBack", "other"}[rng.Intn(3)], Cur: []string{"CURA", "CURB"}[rng.Intn(2)], A: z(mn), B: z(mx)})
+		lop := c19Op{Kind: "setLimits", Sender: iss.N(), Deal: []string{"buyToken", "buyBack", "other"}[rng.Intn(3)], Cur: []string{"CURA", "CURB"}[rng.Intn(2)], A: z(mn), B: z(mx)}
+		cfg = append(cfg, lop)
+		limits[lop.Deal+"/"+lop.Cur] = [2]int64{mn, mx}
 	}
 	// wrong-sender and invalid variants
 	if rng.Intn(4) == 0 {
@@ -372,10 +381,10 @@ func c19Case(c *Ctx, idx int) error {
 			exec(c19Op{Kind: "transfer", Sender: s.N(), To: to.N(), Amount: amt})
 		case r < 80:
 			cur := []string{"CURA", "CURA", "CURB", "NOPE"}[rng.Intn(4)]
-			exec(c19Op{Kind: "buyToken", Sender: s.N(), Amount: dealAmount(rng, whale), Cur: cur})
+			exec(c19Op{Kind: "buyToken", Sender: s.N(), Amount: atBounds("buyToken", cur, dealAmount(rng, whale)), Cur: cur})
 		case r < 92:
 			cur := []string{"CURA", "CURB", "CURB"}[rng.Intn(3)]
-			exec(c19Op{Kind: "buyBack", Sender: s.N(), Amount: dealAmount(rng, whale), Cur: cur})
+			exec(c19Op{Kind: "buyBack", Sender: s.N(), Amount: atBounds("buyBack", cur, dealAmount(rng, whale)), Cur: cur})
 		case r < 95:
 			exec(c19Op{Kind: "setFee", Sender: fs.N(), Cur: []string{"TT", "CURA", "NOPE"}[rng.Intn(3)], A: z(shares[rng.Intn(len(shares))]), B: z(floors[rng.Intn(len(floors))]), C: z(caps[rng.Intn(len(caps))])})
 		case r < 98:
@@ -383,7 +392,9 @@ func c19Case(c *Ctx, idx int) error {
 			exec(c19Op{Kind: "setRate", Sender: iss.N(), Deal: []string{"buyToken", "buyBack"}[rng.Intn(2)], Cur: []string{"CURA", "CURB"}[rng.Intn(2)], A: z(int64(1 + rng.Intn(300000000)))})
 		default:
 			mn := int64(rng.Intn(100))
-			exec(c19Op{Kind: "setLimits", Sender: iss.N(), Deal: []string{"buyToken", "buyBack"}[rng.Intn(2)], Cur: "CURA", A: z(mn), B: z([]int64{0, mn + 50, mn}[rng.Intn(3)])})
+			lop := c19Op{Kind: "setLimits", Sender: iss.N(), Deal: []string{"buyToken", "buyBack"}[rng.Intn(2)], Cur: "CURA", A: z(mn), B: z([]int64{0, mn + 50, mn}[rng.Intn(3)])}
+			exec(lop)
+			limits[lop.Deal+"/"+lop.Cur] = [2]int64{mn, lop.B.Int64()}
 		}
 	}
 	// final metadata
